@@ -881,6 +881,75 @@ fn manifest_removed_server_starts_empty() -> bool {
     ok1 && verdict
 }
 
+// F-C19-a  (C19)  the state-changing admin RPCs FlushHotTier and CreateSnapshot never consult the rate limiter: a tenant with max_qps = 2
+//                 gets 40 FlushHotTier requests admitted back to back (bound: burst 2 + 2/s * elapsed)
+fn admin_rpcs_not_rate_limited() -> bool {
+    use kyrodb_engine::proto::kyro_db_service_client::KyroDbServiceClient;
+    use kyrodb_engine::proto::{FlushRequest, InsertRequest};
+    use std::time::{Duration, Instant};
+    const KEY_A: &str = "kyro_tenant_a_aaaaaaaaaaaaaaaaaaaaaaaaaaaaaaaa";
+    let bin = c10_server_binary();
+    let tmp = tempfile::tempdir().unwrap();
+    let data_dir = tmp.path().join("data");
+    std::fs::create_dir_all(&data_dir).unwrap();
+    let keys_path = tmp.path().join("api_keys.yaml");
+    std::fs::write(&keys_path, format!("api_keys:\n  - key: {KEY_A}\n    tenant_id: tenant_a\n    tenant_name: tenant_a\n    max_qps: 2\n    max_vectors: 10000\n    enabled: true\n    created_at: \"2025-01-01T00:00:00Z\"\n")).unwrap();
+    let (port, http_port) = (c10_port(), c10_port());
+    let log = std::fs::File::create(tmp.path().join("server.log")).unwrap();
+    let child = std::process::Command::new(&bin)
+        .env("KYRODB_DATA_DIR", &data_dir)
+        .env("KYRODB_PORT", port.to_string())
+        .env("KYRODB__SERVER__HTTP_PORT", http_port.to_string())
+        .env("KYRODB__AUTH__ENABLED", "true")
+        .env("KYRODB__AUTH__API_KEYS_FILE", &keys_path)
+        .env("KYRODB__RATE_LIMIT__ENABLED", "true")
+        .env("KYRODB__HNSW__DIMENSION", "8")
+        .env("KYRODB__HNSW__MAX_ELEMENTS", "1000")
+        .stdout(std::process::Stdio::null())
+        .stderr(log)
+        .spawn()
+        .unwrap_or_else(|e| panic!("cannot spawn {}: {e}", bin.display()));
+    let mut server = KillOnDrop(child);
+    let rt = tokio::runtime::Builder::new_multi_thread().worker_threads(2).enable_all().build().unwrap();
+    let endpoint = format!("http://127.0.0.1:{port}");
+    let (admitted_flush, refused_flush, elapsed, inserts_ok) = rt.block_on(async {
+        let deadline = Instant::now() + Duration::from_secs(60);
+        let mut client = loop {
+            match KyroDbServiceClient::connect(endpoint.clone()).await {
+                Ok(c) => break c,
+                Err(e) => {
+                    if let Ok(Some(st)) = server.0.try_wait() { panic!("kyrodb_server exited early: {st}"); }
+                    assert!(Instant::now() < deadline, "server did not come up: {e}");
+                    tokio::time::sleep(Duration::from_millis(100)).await;
+                }
+            }
+        };
+        // control: the data-plane RPC IS limited for this tenant (so the limiter is live)
+        let mut inserts_ok = 0;
+        for i in 1..=10u64 {
+            if client.insert(c10_keyed(KEY_A, InsertRequest { doc_id: i, embedding: c10_vec(i as f32, 1.0), metadata: HashMap::new(), namespace: String::new() })).await.is_ok() { inserts_ok += 1; }
+        }
+        tokio::time::sleep(Duration::from_millis(1200)).await;
+        let t0 = Instant::now();
+        let (mut ok, mut refused) = (0u32, 0u32);
+        for _ in 0..40 {
+            match client.flush_hot_tier(c10_keyed(KEY_A, FlushRequest { force: false })).await {
+                Ok(_) => ok += 1,
+                Err(st) if st.code() == tonic::Code::ResourceExhausted => refused += 1,
+                Err(st) => panic!("unexpected status {st}"),
+            }
+        }
+        (ok, refused, t0.elapsed().as_secs_f64(), inserts_ok)
+    });
+    drop(rt);
+    let _ = server.0.kill();
+    let _ = server.0.wait();
+    let bound = 2.0 + 2.0 * (elapsed + 1.2) + 1.0;
+    println!("  control: 10 Insert back to back, max_qps 2: {inserts_ok} admitted");
+    println!("  40 FlushHotTier in {elapsed:.3}s: {admitted_flush} admitted, {refused_flush} RESOURCE_EXHAUSTED (generous bound burst + rate * interval + 1 = {bound:.1})");
+    inserts_ok < 10 && (admitted_flush as f64) > bound
+}
+
 fn main() {
     let which = std::env::args().nth(1).unwrap_or_else(|| "all".to_string());
     if which == "F-C01-a-child" {
@@ -910,6 +979,7 @@ fn main() {
         ("F-C13-a", Box::new(strict_fallback_loss)),
         ("F-C13-b", Box::new(truncated_older_segment)),
         ("F-C13-d", Box::new(manifest_removed_server_starts_empty)),
+        ("F-C19-a", Box::new(admin_rpcs_not_rate_limited)),
         ("F-C13-e", Box::new(length_flip_reads_as_torn_tail)),
         ("F-C13-c.snapshot", Box::new(|| manifest_key_flip("latest_snapshot"))),
         ("F-C13-c.segments", Box::new(|| manifest_key_flip("wal_segments"))),
